@@ -33,6 +33,15 @@ type cachePartStore struct {
 	cacheReadErrorsAsMiss bool
 	tracer                trace.Tracer
 	oversizedHints        sync.Map
+	fillsMu               sync.Mutex
+	fills                 map[string][]*cacheFill
+}
+
+// cacheFill is a read miss that is streaming a part into the cache. The fill
+// only finishes when the caller has read the whole part, which can be long
+// after the part was deleted or replaced.
+type cacheFill struct {
+	invalidated bool
 }
 
 var _ partstore.PartStore = (*cachePartStore)(nil)
@@ -49,6 +58,7 @@ func New(cache cachepkg.Cache, innerPartStore partstore.PartStore, opts Options)
 		maxPartSizeBytes:      maxPartSizeBytes,
 		cacheReadErrorsAsMiss: opts.CacheReadErrorsAsMiss,
 		tracer:                otel.Tracer("internal/storage/metadatapart/partstore/cache"),
+		fills:                 make(map[string][]*cacheFill),
 	}, nil
 }
 
@@ -79,6 +89,7 @@ func (ps *cachePartStore) PutPart(ctx context.Context, tx database.Tx, partId pa
 	}
 	if tx != nil {
 		tx.OnAfterCommit(func(opCtx context.Context) error {
+			ps.invalidateFills(cacheKey)
 			if teed.cacheEligible {
 				ps.clearOversizedHint(cacheKey)
 				if setErr := ps.cache.Set(cacheKey, bytes.NewReader(buf), int64(len(buf))); setErr != nil {
@@ -96,6 +107,7 @@ func (ps *cachePartStore) PutPart(ctx context.Context, tx database.Tx, partId pa
 		return nil
 	}
 
+	ps.invalidateFills(cacheKey)
 	if teed.cacheEligible {
 		ps.clearOversizedHint(cacheKey)
 		if err := ps.cache.Set(cacheKey, bytes.NewReader(buf), int64(len(buf))); err != nil {
@@ -121,6 +133,9 @@ func (ps *cachePartStore) GetPart(ctx context.Context, tx database.Tx, partId pa
 	defer span.End()
 
 	cacheKey := getPartCacheKey(partId)
+	if ps.hasInvalidatedFill(cacheKey) {
+		return ps.innerPartStore.GetPart(ctx, tx, partId)
+	}
 	rc, err := ps.cache.Get(cacheKey)
 	if err != nil && err != cachepkg.ErrCacheMiss {
 		if !ps.cacheReadErrorsAsMiss {
@@ -135,8 +150,10 @@ func (ps *cachePartStore) GetPart(ctx context.Context, tx database.Tx, partId pa
 		return ps.innerPartStore.GetPart(ctx, tx, partId)
 	}
 
+	fill := ps.beginFill(cacheKey)
 	rc, err = ps.innerPartStore.GetPart(ctx, tx, partId)
 	if err != nil {
+		ps.endFill(cacheKey, fill)
 		return nil, err
 	}
 
@@ -145,6 +162,9 @@ func (ps *cachePartStore) GetPart(ctx context.Context, tx database.Tx, partId pa
 	go func() {
 		defer close(cacheWriteDone)
 		err := ps.cache.Set(cacheKey, pr, -1)
+		if ps.endFill(cacheKey, fill) {
+			return
+		}
 		if err == nil {
 			ps.clearOversizedHint(cacheKey)
 			return
@@ -186,6 +206,7 @@ func (ps *cachePartStore) DeletePart(ctx context.Context, tx database.Tx, partId
 	if tx != nil {
 		cacheKey := getPartCacheKey(partId)
 		tx.OnAfterCommit(func(opCtx context.Context) error {
+			ps.invalidateFills(cacheKey)
 			ps.clearOversizedHint(cacheKey)
 			if removeErr := ps.cache.Remove(cacheKey); removeErr != nil {
 				slog.DebugContext(opCtx, "Failed to remove part from cache on delete", "cacheKey", cacheKey, "error", removeErr)
@@ -196,11 +217,72 @@ func (ps *cachePartStore) DeletePart(ctx context.Context, tx database.Tx, partId
 	}
 
 	cacheKey := getPartCacheKey(partId)
+	ps.invalidateFills(cacheKey)
 	ps.clearOversizedHint(cacheKey)
 	if err := ps.cache.Remove(cacheKey); err != nil {
 		slog.DebugContext(ctx, "Failed to remove part from cache on delete", "cacheKey", cacheKey, "error", err)
 	}
 	return nil
+}
+
+// beginFill registers a cache fill of cacheKey. It has to be called before the
+// part is read from the inner store, so that no PutPart or DeletePart of the
+// part can go unnoticed by the fill.
+func (ps *cachePartStore) beginFill(cacheKey string) *cacheFill {
+	fill := &cacheFill{}
+	ps.fillsMu.Lock()
+	ps.fills[cacheKey] = append(ps.fills[cacheKey], fill)
+	ps.fillsMu.Unlock()
+	return fill
+}
+
+// endFill unregisters a fill after its cache write has finished and reports
+// whether the part was replaced or deleted while the fill was running. In that
+// case the fill may have stored outdated bytes, which are dropped here.
+func (ps *cachePartStore) endFill(cacheKey string, fill *cacheFill) bool {
+	ps.fillsMu.Lock()
+	defer ps.fillsMu.Unlock()
+	if fill.invalidated {
+		_ = ps.cache.Remove(cacheKey)
+	}
+	fills := ps.fills[cacheKey]
+	for i, f := range fills {
+		if f == fill {
+			fills = append(fills[:i], fills[i+1:]...)
+			break
+		}
+	}
+	if len(fills) == 0 {
+		delete(ps.fills, cacheKey)
+	} else {
+		ps.fills[cacheKey] = fills
+	}
+	return fill.invalidated
+}
+
+// invalidateFills marks the running fills of cacheKey as outdated. It is
+// called when the part was replaced or deleted, before the cache entry is
+// updated.
+func (ps *cachePartStore) invalidateFills(cacheKey string) {
+	ps.fillsMu.Lock()
+	for _, fill := range ps.fills[cacheKey] {
+		fill.invalidated = true
+	}
+	ps.fillsMu.Unlock()
+}
+
+// hasInvalidatedFill reports whether an outdated fill of cacheKey is still
+// running. Such a fill can store its bytes at any moment until endFill has
+// dropped them again, so the cache must not be read for that key meanwhile.
+func (ps *cachePartStore) hasInvalidatedFill(cacheKey string) bool {
+	ps.fillsMu.Lock()
+	defer ps.fillsMu.Unlock()
+	for _, fill := range ps.fills[cacheKey] {
+		if fill.invalidated {
+			return true
+		}
+	}
+	return false
 }
 
 func (ps *cachePartStore) hasOversizedHint(cacheKey string) bool {
